@@ -405,55 +405,106 @@ func ruleC09MapReversed(p *Prog, a *Anchors, r *Report) {
 		return
 	}
 	reverse, sorted := bools[0], bools[1]
-	isFlag := func(pa *ssa.Parameter, want bool) func(ssa.Value, bool) bool {
-		return func(c ssa.Value, pol bool) bool { return unspillParam(c) == ssa.Value(pa) && pol == want }
+	// a context: the function a sort stands in, with its parameters bound to the arguments of the call in IterateOrder
+	// (sortValues(keys, reverse), v.iterateMap(fn, empty, reverse)); nil binding = IterateOrder itself
+	type sortCtx struct {
+		fn   *ssa.Function
+		bind map[*ssa.Parameter]ssa.Value
 	}
-	n := 0
+	ctxs := []sortCtx{{it, nil}}
 	for _, b := range it.Blocks {
 		for _, in := range b.Instrs {
 			c, ok := in.(*ssa.Call)
-			if !ok || c.Common().StaticCallee() == nil || p.extName(c.Common().StaticCallee()) != "sort.Sort" {
+			if !ok || c.Common().StaticCallee() == nil || !p.InPkg(c.Common().StaticCallee()) || c.Common().StaticCallee().Blocks == nil || c.Common().StaticCallee() == it {
 				continue
 			}
-			// only the sorts of map keys (the argument is built from MapKeys)
-			arg := c.Common().Args[0]
-			desc := false
-			if mi, isMI := arg.(*ssa.MakeInterface); isMI {
-				arg = mi.X
+			h := c.Common().StaticCallee()
+			bind := map[*ssa.Parameter]ssa.Value{}
+			for i, arg := range callArgs(c.Common()) {
+				if i < len(h.Params) {
+					bind[h.Params[i]] = arg
+				}
 			}
-			if rc, isCall := arg.(*ssa.Call); isCall && rc.Common().StaticCallee() != nil && p.extName(rc.Common().StaticCallee()) == "sort.Reverse" {
-				desc = true
-				arg = rc.Common().Args[0]
+			ctxs = append(ctxs, sortCtx{h, bind})
+		}
+	}
+	resolve := func(v ssa.Value, cx sortCtx) ssa.Value {
+		v = unspillParam(v)
+		if pa, ok := v.(*ssa.Parameter); ok && cx.bind != nil {
+			if a, has := cx.bind[pa]; has {
+				return unspillParam(a)
+			}
+		}
+		return v
+	}
+	fromMapKeys := func(v ssa.Value, cx sortCtx) bool {
+		for d := 0; d < 6; d++ {
+			v = resolve(v, cx)
+			switch x := v.(type) {
+			case *ssa.MakeInterface:
+				v = x.X
+			case *ssa.ChangeType:
+				v = x.X
+			case *ssa.Call:
+				if x.Common().StaticCallee() != nil && p.extName(x.Common().StaticCallee()) == "(reflect.Value).MapKeys" {
+					return true
+				}
+				return false
+			default:
+				return false
+			}
+		}
+		return false
+	}
+	n := 0
+	seenKey := map[string]bool{}
+	for _, cx := range ctxs {
+		cx := cx
+		isFlag := func(pa *ssa.Parameter, want bool) func(ssa.Value, bool) bool {
+			return func(c ssa.Value, pol bool) bool { return resolve(c, cx) == ssa.Value(pa) && pol == want }
+		}
+		for _, b := range cx.fn.Blocks {
+			for _, in := range b.Instrs {
+				c, ok := in.(*ssa.Call)
+				if !ok || c.Common().StaticCallee() == nil || p.extName(c.Common().StaticCallee()) != "sort.Sort" {
+					continue
+				}
+				arg := c.Common().Args[0]
+				desc := false
 				if mi, isMI := arg.(*ssa.MakeInterface); isMI {
 					arg = mi.X
 				}
-			}
-			fromKeys := false
-			if cv, isCV := arg.(*ssa.ChangeType); isCV {
-				if kc, isCall := cv.X.(*ssa.Call); isCall && kc.Common().StaticCallee() != nil && p.extName(kc.Common().StaticCallee()) == "(reflect.Value).MapKeys" {
-					fromKeys = true
+				if rc, isCall := arg.(*ssa.Call); isCall && rc.Common().StaticCallee() != nil && p.extName(rc.Common().StaticCallee()) == "sort.Reverse" {
+					desc = true
+					arg = rc.Common().Args[0]
 				}
-			}
-			if !fromKeys {
-				continue
-			}
-			n++
-			if desc {
-				key := "map:descending"
-				switch {
-				case !Guarded(in, isFlag(reverse, true)):
-					r.Bad(key, p.InstrPos(in), "the keys of a map are sorted in descending order without the `reversed` flag being set")
-				case Guarded(in, isFlag(sorted, true)):
-					r.Bad(key, p.InstrPos(in), "the keys of a map are visited in reverse only when `sorted` is given as well: {%% for k, v in m reversed %%} renders the same as without `reversed`, although the keys of a map are always visited in sorted order")
-				default:
-					r.OK(key, p.InstrPos(in), "descending exactly under the `reversed` flag")
+				if !fromMapKeys(arg, cx) {
+					continue
 				}
-			} else {
+				n++
 				key := "map:ascending"
-				if Guarded(in, isFlag(reverse, false)) {
-					r.OK(key, p.InstrPos(in), "ascending only when `reversed` is not set")
+				if desc {
+					key = "map:descending"
+				}
+				if seenKey[key] {
+					key += "#" + itoa(int64(n))
+				}
+				seenKey[key] = true
+				if desc {
+					switch {
+					case !Guarded(in, isFlag(reverse, true)):
+						r.Bad(key, p.InstrPos(in), "the keys of a map are sorted in descending order without the `reversed` flag being set")
+					case Guarded(in, isFlag(sorted, true)):
+						r.Bad(key, p.InstrPos(in), "the keys of a map are visited in reverse only when `sorted` is given as well: {%% for k, v in m reversed %%} renders the same as without `reversed`, although the keys of a map are always visited in sorted order")
+					default:
+						r.OK(key, p.InstrPos(in), "descending exactly under the `reversed` flag")
+					}
 				} else {
-					r.Bad(key, p.InstrPos(in), "the keys of a map are sorted in ascending order also when `reversed` is set")
+					if Guarded(in, isFlag(reverse, false)) {
+						r.OK(key, p.InstrPos(in), "ascending only when `reversed` is not set")
+					} else {
+						r.Bad(key, p.InstrPos(in), "the keys of a map are sorted in ascending order also when `reversed` is set")
+					}
 				}
 			}
 		}
